@@ -62,6 +62,10 @@ fn c06_send_command() {
 
 /// command (<= 2 parameters) followed by a pixel stream
 fn pixels_h<const N: usize, const P: usize>() {
+    pixels_l_h::<N, P, LMAX>()
+}
+
+fn pixels_l_h<const N: usize, const P: usize, const LMAX: usize>() {
     let backing: [u8; LMAX] = kani::any();
     let mut backing = backing;
     let len: usize = kani::any();
@@ -203,3 +207,9 @@ h!(c06_repeated_n3, 10, repeated_h::<3>(6));
 h!(c12_spi_fault_n2, 10, fault_h::<2>());
 //@ props=C12 inst="SpiInterface, N=3" bounds="same" timeout=900 mem=8
 h!(c12_spi_fault_n3, 10, fault_h::<3>());
+//@ props=C06,C20 tier=thorough required=no inst="SpiInterface::send_pixels::<2>" bounds="buffer length 2..=16, 0..=10 pixels" timeout=5400 mem=24
+h!(c06_pixels_n2_big, 18, pixels_l_h::<2, 10, 16>());
+//@ props=C06,C20 tier=thorough required=no inst="SpiInterface::send_pixels::<3>" bounds="buffer length 3..=16, 0..=10 pixels" timeout=5400 mem=24
+h!(c06_pixels_n3_big, 18, pixels_l_h::<3, 10, 16>());
+//@ props=C06,C20 tier=thorough inst="SpiInterface::send_repeated_pixel::<3>" bounds="buffer length 3..=8, count 0..=12" timeout=3600 mem=12
+h!(c06_repeated_n3_12, 16, repeated_h::<3>(12));
